@@ -1,6 +1,7 @@
 package main
 
 import (
+	"strconv"
 	"fmt"
 	"go/ast"
 	"go/constant"
@@ -789,4 +790,51 @@ func freshDecodeTarget(fi *FnInfo, call *ssa.Call) (bool, string) {
 		return false, "the decode target " + desc(al) + " is not fresh: " + why
 	}
 	return true, ""
+}
+
+// modeBits: what the facts say about the bits of a file mode value whose rendering starts with prefix.
+// Understands `(M & mask) == val` / `!= 0` masks and the IsDir / IsRegular predicates.
+//   dir / symlink: +1 known set, -1 known clear, 0 unknown; regular: the IsRegular predicate holds.
+func modeBits(labels map[string]string, prefix string) (dir, symlink int, regular bool) {
+	const bDir, bSym = uint64(1) << 31, uint64(1) << 27
+	reMask := regexp.MustCompile(`^(EQ|NE)\(\((.*) & const:(\d+)\),const:(\d+)\)$`)
+	for l := range labels {
+		if strings.HasPrefix(l, "T(call:(io/fs.FileMode).IsDir("+prefix) {
+			dir = 1
+		}
+		if strings.HasPrefix(l, "F(call:(io/fs.FileMode).IsDir("+prefix) {
+			dir = -1
+		}
+		if strings.HasPrefix(l, "T(call:(io/fs.FileMode).IsRegular("+prefix) {
+			regular, dir, symlink = true, -1, -1
+		}
+		m := reMask.FindStringSubmatch(l)
+		if m == nil || !strings.HasPrefix(m[2], prefix) {
+			continue
+		}
+		mask, _ := strconv.ParseUint(m[3], 10, 64)
+		val, _ := strconv.ParseUint(m[4], 10, 64)
+		if m[1] == "EQ" {
+			for _, b := range []struct {
+				bit uint64
+				out *int
+			}{{bDir, &dir}, {bSym, &symlink}} {
+				if mask&b.bit != 0 {
+					if val&b.bit != 0 {
+						*b.out = 1
+					} else {
+						*b.out = -1
+					}
+				}
+			}
+		} else if val == 0 && mask&(mask-1) == 0 { // NE((M & bit),0): that single bit is set
+			if mask == bDir {
+				dir = 1
+			}
+			if mask == bSym {
+				symlink = 1
+			}
+		}
+	}
+	return
 }
